@@ -191,6 +191,84 @@ Fixpoint v15 (e : engine) (s : mstate) (ldr : option cid) (el : list cid) (xs : 
   end.
 Definition c15_valid (c : c15_case) : Prop := v15 (c_engine c) mstate0 None [] (c_script c).
 
+(* ---------- List contents on the keys the leader has not touched ---------- *)
+Definition untouched (T : list bytes) (kv : bytes * bytes * N) : bool := negb (existsb (beqb (fst (fst kv))) T).
+
+Lemma restrict_app T a b : restrict T (a ++ b) = restrict T a ++ restrict T b.
+Proof. unfold restrict. apply filter_app. Qed.
+
+Definition latest_of (kv : bytes * krec) : list (bytes * bytes * N) :=
+  match olatest (k_objs (snd kv)) with Some (m, Some v) => [(fst kv, v, m)] | _ => [] end.
+
+Lemma list_latest_cons kv d : list_latest (kv :: d) = latest_of kv ++ list_latest d.
+Proof. reflexivity. Qed.
+
+Lemma restrict_latest_touched T k r : existsb (beqb k) T = true -> restrict T (latest_of (k, r)) = [].
+Proof.
+  intros H. unfold latest_of, restrict. cbn [fst snd]. destruct (olatest (k_objs r)) as [[m [v|]]|]; try reflexivity.
+  cbn [filter fst]. rewrite H. reflexivity.
+Qed.
+
+(* rewriting the records of a touched key does not change what the other keys show *)
+Lemma restrict_dset T k r : existsb (beqb k) T = true ->
+  forall d, restrict T (list_latest (dset d k r)) = restrict T (list_latest d).
+Proof.
+  intros H. induction d as [|[k' r'] tl IH]; cbn [dset].
+  - rewrite list_latest_cons, restrict_app, restrict_latest_touched by exact H. reflexivity.
+  - destruct (bcmp k k') eqn:C.
+    + apply bcmp_eq in C. subst k'. rewrite !list_latest_cons, !restrict_app, !restrict_latest_touched by exact H. reflexivity.
+    + rewrite list_latest_cons, restrict_app, restrict_latest_touched by exact H. reflexivity.
+    + rewrite !list_latest_cons, !restrict_app, IH. reflexivity.
+Qed.
+
+Lemma filter_and {A} (f g : A -> bool) l : filter (fun x => f x && g x) l = filter f (filter g l).
+Proof.
+  induction l as [|x l IH]; [reflexivity|]. simpl. destruct (g x) eqn:G; destruct (f x) eqn:F; simpl; rewrite ?F, IH; reflexivity.
+Qed.
+
+Lemma restrict_more T k a b : restrict T a = restrict T b -> restrict (k :: T) a = restrict (k :: T) b.
+Proof.
+  intros H. unfold restrict in *.
+  assert (E : forall l : list (bytes * bytes * N),
+                filter (fun kv => negb (existsb (beqb (fst (fst kv))) (k :: T))) l =
+                filter (fun kv => negb (beqb (fst (fst kv)) k)) (filter (fun kv => negb (existsb (beqb (fst (fst kv))) T)) l)).
+  { intros l. rewrite <- filter_and. apply filter_ext. intros x. cbn [existsb]. apply negb_orb. }
+  rewrite !E, H. reflexivity.
+Qed.
+
+Lemma restrict_nil l : restrict [] l = l.
+Proof. unfold restrict. induction l as [|x l IH]; [reflexivity|]. simpl. f_equal. exact IH. Qed.
+
+(* a request rewrites at most the records of its own key *)
+Lemma create_at_shape d k v rev : fst (create_at d k v rev) = d \/ exists r, fst (create_at d k v rev) = dset d k r.
+Proof.
+  unfold create_at. destruct (k_idx (dget d k)) as [[r0 del]|]; [destruct (del && (r0 <? rev))|]; cbn; eauto.
+Qed.
+
+Lemma do_op_shape d n o : d_store (do_op d n o) = d \/ exists r, d_store (do_op d n o) = dset d (hop_key o) r.
+Proof.
+  destruct o as [k v|k v prev|k prev]; cbn [do_op hop_key].
+  - pose proof (create_at_shape d k v (n + 1)). destruct (create_at d k v (n + 1)). exact H.
+  - destruct prev as [|pp].
+    + pose proof (create_at_shape d k v (n + 1)). destruct (create_at d k v (n + 1)) as [d' ok]. destruct ok; exact H.
+    + destruct (n + 1 <? N.pos pp); [left; reflexivity|].
+      destruct (k_idx (dget d k)) as [[r0 [|]]|]; try (left; reflexivity).
+      destruct (r0 =? N.pos pp); [right; eexists; reflexivity|left; reflexivity].
+  - destruct (get_latest (dget d k)) as [[val modr]|]; [|left; reflexivity].
+    destruct ((0 <? prev) && (n + 1 <? prev)); [left; reflexivity|].
+    destruct ((0 <? prev) && negb (prev =? modr)); [left; reflexivity|].
+    destruct (n + 1 <=? modr); [left; reflexivity|].
+    destruct (k_idx (dget d k)) as [[r0 [|]]|]; try (left; reflexivity).
+    destruct (r0 =? modr); [right; eexists; reflexivity|left; reflexivity].
+Qed.
+
+Lemma restrict_do_op T d n o :
+  restrict (hop_key o :: T) (list_latest (d_store (do_op d n o))) = restrict (hop_key o :: T) (list_latest d).
+Proof.
+  destruct (do_op_shape d n o) as [->|[r ->]]; [reflexivity|].
+  apply restrict_dset. cbn [existsb]. rewrite beqb_refl. reflexivity.
+Qed.
+
 Definition J (e : engine) (s : mstate) (os : ost15) (el : list cid) : Prop :=
   WF (w_data (m_w s)) /\
   (forall c, ~ In c el -> p_lead (m_p s c) = mkL (os_syncs os c) (os_syncs os c)) /\
@@ -201,6 +279,7 @@ Definition J (e : engine) (s : mstate) (os : ost15) (el : list cid) : Prop :=
        (N.max (dmax (os_dump os)) (os_sbase os) <= os_base os /\ cm = n /\
         Good (w_data (m_w s)) n /\ os_base os <= n /\ os_last os <= n /\
         (forall k, existsb (beqb k) (os_touched os) = false -> dget (w_data (m_w s)) k = dget (os_dump os) k) /\
+        restrict (os_touched os) (list_latest (w_data (m_w s))) = restrict (os_touched os) (list_latest (os_dump os)) /\
         (os_fresh os = true -> w_data (m_w s) = os_dump os /\ n = os_base os)))
   end.
 
@@ -259,7 +338,7 @@ Proof.
         assert (En : (if os_syncs os c <? v then v else os_syncs os c) = v).
         { destruct (os_syncs os c <? v) eqn:Q; [reflexivity|]. apply N.ltb_ge in Q. lia. }
         rewrite En. split; [reflexivity|]. split; [apply good_split; split; [rewrite Ed; exact W|lia]|].
-        split; [lia|]. split; [lia|]. split; [reflexivity|]. intros _. auto.
+        split; [lia|]. split; [lia|]. split; [reflexivity|]. split; [reflexivity|]. intros _. auto.
       * left. split; [|exact Hgt].
         destruct e; try reflexivity; exfalso;
           assert (dmax (w_data w') <= v /\ os_syncs os c <= v) by (apply Rate; discriminate); lia.
@@ -303,7 +382,7 @@ Proof.
     assert (P' : p_lead (upd (m_p s) c (mkP (p_lock (m_p s c)) (mkL (n + 1) (if n =? cm then n + 1 else cm))) c)
                  = mkL (n + 1) (if n =? cm then n + 1 else cm)).
     { unfold upd. rewrite N.eqb_refl. reflexivity. }
-    destruct Jd as [[Eb Hb]|[Hle [Ecm [G [Hbn [Hla [Hun Hfr]]]]]]].
+    destruct Jd as [[Eb Hb]|[Hle [Ecm [G [Hbn [Hla [Hun [Hres Hfr]]]]]]]].
     + cbn [o15_run]. destruct (o15_step os (AOp c op, OOp (d_res out))) as [os'|] eqn:St.
       * destruct (step_keeps os (AOp c op) _ os' I St) as [K1 [K2 [K3 [K4 K5]]]].
         eapply IH; cycle 1; [rewrite K1; exact V|exact C|].
@@ -335,13 +414,14 @@ Proof.
       cbn [os_leader os_base os_dump os_touched os_fresh os_last os_sbase]. split; [exact Hin|].
       exists (n + 1), (n + 1). split; [exact P'|]. right. split; [exact Hle|]. split; [reflexivity|].
       cbn [m_w]. rewrite bump_data. cbn [w_data]. split; [apply good_step; exact G|]. split; [lia|].
-      split; [destruct handed; [rewrite (Hh eq_refl)|]; lia|]. split; [|discriminate].
-      intros k Hk. cbn [existsb] in Hk. apply orb_false_iff in Hk as [Hk1 Hk2].
-      apply beqb_neq in Hk1. subst out. rewrite do_op_other by exact Hk1. apply Hun. exact Hk2.
+      split; [destruct handed; [rewrite (Hh eq_refl)|]; lia|]. split; [|split; [|discriminate]].
+      { intros k Hk. cbn [existsb] in Hk. apply orb_false_iff in Hk as [Hk1 Hk2].
+        apply beqb_neq in Hk1. subst out. rewrite do_op_other by exact Hk1. apply Hun. exact Hk2. }
+      subst out. rewrite restrict_do_op. apply restrict_more. exact Hres.
   - (* List(0) by the leader *)
     destruct V as [Ld V]. rewrite Ld in Jl. destruct Jl as [Hin [n [cm [Pn Jd]]]].
     cbn [m_step] in M. rewrite Pn in M. cbn [committed] in M. injection M as <- <-.
-    destruct Jd as [[Eb Hb]|[Hle [Ecm [G [Hbn [Hla [Hun Hfr]]]]]]].
+    destruct Jd as [[Eb Hb]|[Hle [Ecm [G [Hbn [Hla [Hun [Hres Hfr]]]]]]]].
     + cbn [o15_run]. destruct (o15_step os (AList c, OList cm (list_at (w_data (m_w s)) cm))) as [os'|] eqn:St.
       * destruct (step_keeps os (AList c) _ os' I St) as [K1 [K2 [K3 [K4 K5]]]].
         apply (IH s os' el); [|rewrite K1; exact V|exact C].
@@ -352,12 +432,9 @@ Proof.
       assert (Hl : (os_last os <=? n) = true) by (apply N.leb_le; exact Hla). rewrite Hl. cbn [andb].
       assert (Jsame : J e s os el).
       { split; [exact W|]. split; [exact K|]. rewrite Ld. split; [exact Hin|]. exists n, n. split; [exact Pn|]. right. auto 10. }
-      destruct (os_fresh os) eqn:Fr.
-      * destruct (Hfr eq_refl) as [Ed En].
-        assert (Hd : dmax (os_dump os) <= os_base os) by lia.
-        rewrite Ed, En, (list_at_latest _ _ Hd), (list_eqb_refl kv_eqb kv_eqb_refl).
-        apply (IH s os el); [exact Jsame|exact V|exact C].
-      * apply (IH s os el); [exact Jsame|exact V|exact C].
+      assert (Dn : dmax (w_data (m_w s)) <= n) by (apply good_split in G as [_ Dn]; exact Dn).
+      rewrite (list_at_latest _ _ Dn), Hres, (list_eqb_refl kv_eqb kv_eqb_refl).
+      apply (IH s os el); [exact Jsame|exact V|exact C].
   - (* a standby polls the lock: data and allocators untouched *)
     cbn [m_step] in M. injection M as <- <-. cbn [o15_run o15_step].
     eapply IH; cycle 1; [exact V|exact C|].
@@ -381,4 +458,91 @@ Proof.
   destruct (o15_sound (c_engine c) (c_script c) mstate0 ost0 []) as [H|H]; [|exact V|exact C|left; exact H|right].
   - split; [constructor|]. split; [reflexivity|exact I].
   - split; [exact H|]. destruct (o15_run_code _ _ _ _ H) as [E|[_ E]]; [discriminate|exact E].
+Qed.
+
+(* ---------- validity is decidable: the shards evaluate it on every case ---------- *)
+Lemma cid_in_spec c el : cid_in c el = false -> ~ In c el.
+Proof.
+  unfold cid_in. intros H Hin. assert (existsb (N.eqb c) el = true); [|congruence].
+  apply existsb_exists. exists c. split; [exact Hin|apply N.eqb_refl].
+Qed.
+
+Lemma v15b_sound e xs : forall s ldr el, v15b e s ldr el xs = true -> v15 e s ldr el xs.
+Proof.
+  induction xs as [|[a o] tl IH]; intros s ldr el H; [exact I|]. cbn [v15b v15] in *.
+  destruct a as [c h bc bu t1 t2 tf|c r|c op|c|c t|].
+  - apply andb_true_iff in H as [Hc H]. apply negb_true_iff in Hc. split; [apply cid_in_spec; exact Hc|].
+    destruct (snd (m_step e s (AElect c h bc bu t1 t2 tf))) as [r g w d l| | | | |]; try (apply IH; exact H).
+    destruct r as [v| |]; try (apply IH; exact H).
+    apply andb_true_iff in H as [Hr H]. split; [|apply IH; exact H].
+    intros Ne. apply orb_true_iff in Hr as [Hr|Hr]; [destruct e; simpl in Hr; try discriminate; congruence|].
+    apply andb_true_iff in Hr as [A B]. apply N.leb_le in A, B. auto.
+  - apply andb_true_iff in H as [Hc H]. apply negb_true_iff in Hc. split; [apply cid_in_spec; exact Hc|apply IH; exact H].
+  - apply andb_true_iff in H as [Hl H]. split; [|apply IH; exact H].
+    unfold ldr_is in Hl. destruct ldr as [l|]; [|discriminate]. apply N.eqb_eq in Hl. congruence.
+  - apply andb_true_iff in H as [Hl H]. split; [|apply IH; exact H].
+    unfold ldr_is in Hl. destruct ldr as [l|]; [|discriminate]. apply N.eqb_eq in Hl. congruence.
+  - apply IH; exact H.
+  - apply IH; exact H.
+Qed.
+
+Lemma c15_validb_sound c : c15_validb c = true -> c15_valid c.
+Proof. apply v15b_sound. Qed.
+
+(* the statement the shards establish case by case: no Prop-level hypothesis left *)
+Lemma c15_checkv_sound c : c15_checkv c = true ->
+  c15_oracle c = None \/ (c15_oracle c = Some 1 /\ c_engine c = EBadger).
+Proof.
+  unfold c15_checkv. intros H. apply andb_true_iff in H as [V C].
+  apply c15_oracle_sound; [apply c15_validb_sound; exact V|exact C].
+Qed.
+
+(* ---------- the real Campaign() runs: the callback model predicts them, the oracle accepts ---------- *)
+Lemma on_eqb_eq a b : on_eqb a b = true -> a = b.
+Proof. apply opt_eqb_eq. intros x y H. apply N.eqb_eq. exact H. Qed.
+
+Lemma camp_oracle_sound k : camp_check k = true -> camp_oracle k = None.
+Proof.
+  unfold camp_check, camp_oracle.
+  pose proof (flag_after_install (k_labels k)) as F. pose proof (committed_follows (k_labels k)) as Cf.
+  destruct (nrun node0 (k_labels k)) as [x os]. cbn [fst] in Cf. destruct F as [_ F].
+  intros H. repeat (apply andb_true_iff in H as [H ?]).
+  apply (list_eqb_eq on_eqb on_eqb_eq) in H. subst os.
+  destruct (n_pc x) as [| | |v] eqn:P; try discriminate.
+  match goal with Hv : (v =? _) = true |- _ => apply N.eqb_eq in Hv; subst v end.
+  match goal with Hc : (committed _ =? _) = true |- _ => apply N.eqb_eq in Hc; rename Hc into Hcm end.
+  match goal with Hm : (_ <=? _) = true |- _ => apply N.leb_le in Hm; rename Hm into Hmax end.
+  unfold committed_ok in Cf. rewrite P in Cf.
+  assert (A : forallb (fun o => match o with Some r => k_maxrev k <? r | None => true end) (k_handed k) = true).
+  { apply forallb_forall. intros [r|] Hin; [|reflexivity]. destruct (F r Hin) as [v [E L]]. injection E as <-.
+    apply N.ltb_lt. lia. }
+  rewrite A. assert (B : (k_version k <=? k_committed k) = true) by (apply N.leb_le; lia). rewrite B. reflexivity.
+Qed.
+
+Lemma c15_any_sound c : c15_any_check c = true ->
+  c15_any_oracle c = None \/
+  (c15_any_oracle c = Some 1 /\ match c with KScript s => c_engine s = EBadger | KCampaign _ => False end).
+Proof.
+  destruct c as [s|k]; cbn [c15_any_check c15_any_oracle]; intros H.
+  - destruct (c15_checkv_sound s H) as [A|[A B]]; auto.
+  - left. apply camp_oracle_sound. exact H.
+Qed.
+
+(* ---------- audit items ---------- *)
+(* without the rate hypothesis the environment clocks are no better than Badger's: clock_ahead is refuted
+   for memkv too (a clock that does not advance); what is proved for memkv / TiKV is the statement UNDER the
+   rate hypothesis (clock_ahead_env_statement) *)
+Lemma clock_ahead_env_refuted_without_rate_hyp : ~ clock_ahead EMem.
+Proof.
+  intros H. specialize (H f1_history 1 1 1 1).
+  remember (handover EMem f1_history 1 1 1 1) as x eqn:E. vm_compute in E. subst x.
+  specialize (H _ _ _ _ eq_refl). vm_compute in H. apply H. reflexivity.
+Qed.
+
+(* the order of OnStartedLeading is load-bearing: with the flag raised first a request is admitted before the
+   version is installed and gets a revision at or below it *)
+Lemma flag_order_needed :
+  exists ls r v, In (Some r) (snd (nrun_swapped node0 ls)) /\ n_pc (fst (nrun_swapped node0 ls)) = CbLeading v /\ r <= v.
+Proof.
+  exists [NFlag; NRequest; NParse 100; NInstall], 1, 100. vm_compute. split; [right; left; reflexivity|split; [reflexivity|discriminate]].
 Qed.
